@@ -147,6 +147,11 @@ def _time_tree(s, kind="ratios", prefix="tree", dates=(0.0, 0.0, 0.0, 0.0)):
         rh = s.P(prefix + ".root_height", [1.0], "pos")
         cat = s.D(prefix + ".ratios_root", CatParameter(prefix + ".ratios_root", [r, rh], -1), None)
         tm = tmod.ReparameterizedTimeTreeModel(prefix, tree, taxa, cat)
+    elif kind == "ratios_plain":
+        # ratios and root height in ONE plain Parameter (direct construction; the JSON route builds a CatParameter): in-place updates
+        # followed by a notification keep the same tensor object
+        rr = s.P(prefix + ".ratios_root", [0.2, 0.3, 1.0], "pos")
+        tm = tmod.ReparameterizedTimeTreeModel(prefix, tree, taxa, rr)
     elif kind == "shifts":
         sh = s.P(prefix + ".shifts", [0.5, 0.6, 0.4], "pos")
         tm = tmod.ReparameterizedTimeTreeModel(prefix, tree, taxa, shifts=sh)
@@ -155,7 +160,7 @@ def _time_tree(s, kind="ratios", prefix="tree", dates=(0.0, 0.0, 0.0, 0.0)):
     s.M(prefix, tm)
     s.E(prefix + ".branch_lengths", tm.branch_lengths)
     s.E(prefix + ".node_heights", lambda: tm.node_heights)
-    if kind in ("ratios", "shifts"):
+    if kind in ("ratios", "ratios_plain", "shifts"):
         s.E(prefix + ".__call__", lambda: tm())
     return tm
 
@@ -498,6 +503,11 @@ def _s(s):
 @scenario("tree.reparameterized.ratios", "torchtree.evolution.tree_model.ReparameterizedTimeTreeModel")
 def _s(s):
     s.out, s.out_name = _time_tree(s, "ratios"), "tree"
+
+
+@scenario("tree.reparameterized.ratios_plain", "torchtree.evolution.tree_model.ReparameterizedTimeTreeModel")
+def _s(s):
+    s.out, s.out_name = _time_tree(s, "ratios_plain"), "tree"
 
 
 @scenario("tree.reparameterized.shifts", "torchtree.evolution.tree_model.ReparameterizedTimeTreeModel")
@@ -2354,6 +2364,67 @@ def _explanations(scn_name):
     return out
 
 
+def check_copy(scn_name, how, seed):
+    """the observer wiring survives a copy of the object graph: the whole graph of a scenario is copied (copy.deepcopy or a pickle round
+    trip, caches warm), every base parameter of the COPY is assigned a new value through the public setter, and every observable of the
+    copy that can be reached by name (<object>.<attribute or method>) equals that of a freshly built graph holding the same values."""
+    import copy
+    import pickle
+    s = build(scn_name)
+    for lab in list(s.evals):
+        _evaluate(s, lab)                       # warm caches
+    objs = s.all_objects()
+    try:
+        objs2 = copy.deepcopy(objs) if how == "deepcopy" else pickle.loads(pickle.dumps(objs))
+    except Exception as e:
+        return {"backend": "concrete", "trivial": True, "statement": "%s of scenario %s is not supported (%s): nothing to check" % (how, scn_name, type(e).__name__)}
+    rng = random.Random("%s/%s/%d" % (scn_name, how, seed))
+    state = s.state()
+    n_assigned = 0
+    for nme in s.params:
+        dom = s.domains.get(nme)
+        if dom in (None, "fixed"):
+            continue
+        new = _perturb(objs2[nme].tensor, dom, rng)
+        objs2[nme].tensor = new
+        state[nme] = new.detach().clone()
+        n_assigned += 1
+    if n_assigned == 0:
+        return {"backend": "concrete", "trivial": True, "statement": "scenario %s has no assignable base parameter" % scn_name}
+    fresh = build(scn_name, state)
+    stale, n = [], 0
+    for lab in s.evals:
+        oname, _, attr = lab.rpartition(".")
+        if oname not in objs2 or not attr:
+            continue
+        b = _evaluate(fresh, lab)
+        try:
+            with _rng_frozen(12345):
+                v = getattr(objs2[oname], attr)
+                v = v() if callable(v) else v
+            a = ("ok", v.detach().clone() if isinstance(v, torch.Tensor) else ([x.detach().clone() if isinstance(x, torch.Tensor) else x for x in v] if isinstance(v, (list, tuple)) else v))
+        except Exception as e:
+            a = ("exc", type(e).__name__)
+        if a[0] == "exc" or b[0] == "exc":
+            continue
+        n += 1
+        if not heap.same_value(a[1], b[1], ATOL, ATOL):
+            stale.append({"eval": lab, "copy": _fmt(a[1]), "fresh": _fmt(b[1])})
+    if stale:
+        raise Refuted("after %s of the graph of scenario %s and an update of its base parameters, %d observable(s) of the copy are stale, e.g. %s"
+                      % (how, scn_name, len(stale), stale[0]), witness={"scenario": scn_name, "how": how, "stale": stale[:4]},
+                      replay={"kind": "custom", "contract": "C11", "func": "replay_copy", "args": {"scenario": scn_name, "how": how, "seed": seed}}, confirmed=True)
+    return {"backend": "concrete", "cases": n, "trivial": n == 0, "statement": "%s of %s: %d observables of the copy follow an update of its %d base parameters" % (how, scn_name, n, n_assigned)}
+
+
+def replay_copy(args):
+    try:
+        check_copy(args["scenario"], args["how"], args.get("seed", 0))
+    except Refuted as e:
+        return False, e.detail
+    return True, "held"
+
+
 def check_dyn_class(scn_name, seed, n_hist, length):
     try:
         return check_dyn(scn_name, seed, n_hist, length)
@@ -2862,6 +2933,12 @@ def obligations(tier, seed):
         if sn.startswith(("twin.", "graph.")):
             continue
         add("C11.dyn.class[%s]" % sn, (lambda sn=sn: check_dyn_class(sn, seed, nh2, ln2)), "end-to-end cross-validation per class scenario (bounded; completeness guard of (a)-(d))", tag="B", timeout=1800)
+
+    for sn in SCENARIOS:
+        if sn.startswith("twin."):
+            continue
+        for how in ("deepcopy", "pickle"):
+            add("C11.copy[%s,%s]" % (sn, how), (lambda sn=sn, how=how: check_copy(sn, how, seed)), "the observer wiring survives a copy of the object graph (bounded)", tag="B", timeout=600)
 
     # ---- vacuity --------------------------------------------------------------------------------------
     add("C11.vacuity.handlers", vacuity_handlers, "guard: must-fail twins of (b) and dyn")
